@@ -34,14 +34,14 @@ type STgt struct {
 	Job    int    `json:"job"`
 }
 type SOp struct {
-	Kind    string `json:"kind"` // update | scrape | restart
-	Req     []STgt `json:"req,omitempty"`
+	Kind string `json:"kind"` // update | scrape | restart
+	Req  []STgt `json:"req,omitempty"`
 	// job keys that are present in the update request with an empty target list
 	EmptyJobs []int  `json:"emptyJobs,omitempty"`
-	Hash    uint64 `json:"h,omitempty"`
-	Ok      bool   `json:"ok,omitempty"`
-	Scraped int64  `json:"scraped,omitempty"`
-	Total   int64  `json:"total,omitempty"`
+	Hash      uint64 `json:"h,omitempty"`
+	Ok        bool   `json:"ok,omitempty"`
+	Scraped   int64  `json:"scraped,omitempty"`
+	Total     int64  `json:"total,omitempty"`
 }
 type SEnt struct {
 	Hash   uint64 `json:"h"`
@@ -77,6 +77,9 @@ scrape_configs:
   metric_relabel_configs:
   - source_labels: [__name__]
     regex: drop_.*
+    action: drop
+  - source_labels: [__name__, verdict]
+    regex: keep_a;drop
     action: drop
 `
 
@@ -204,9 +207,24 @@ func (r *sidecarRig) update(req []STgt, emptyJobs ...int) error {
 	return nil
 }
 
-func expoPayload(scraped, total int64) string {
+func expoPayload(scraped, total int64, job int) string {
 	var b strings.Builder
 	b.WriteString("# HELP keep_a something\n# TYPE keep_a gauge\n")
+	dropped := total - scraped
+	// job1 also drops by (name, label): samples of one metric name are judged differently, and for
+	// odd totals the first sample of that name is a dropped one
+	var byName int64
+	if job == 1 {
+		byName = dropped - dropped/2
+	}
+	emitByName := func() {
+		for i := int64(0); i < byName; i++ {
+			fmt.Fprintf(&b, "keep_a{i=\"d%d\",verdict=\"drop\"} 3\n", i)
+		}
+	}
+	if total%2 == 1 {
+		emitByName()
+	}
 	for i := int64(0); i < scraped; i++ {
 		if i%2 == 0 {
 			fmt.Fprintf(&b, "keep_a{i=\"%d\"} %d\n", i, i)
@@ -215,8 +233,11 @@ func expoPayload(scraped, total int64) string {
 		}
 	}
 	b.WriteString("\n")
-	for i := scraped; i < total; i++ {
+	for i := int64(0); i < dropped-byName; i++ {
 		fmt.Fprintf(&b, "drop_c{i=\"%d\"} 2\n", i)
+	}
+	if total%2 == 0 {
+		emitByName()
 	}
 	return b.String()
 }
@@ -227,7 +248,7 @@ func (r *sidecarRig) scrape(h uint64, job int, ok bool, scraped, total int64) in
 			return nil, fmt.Errorf("scripted connection error")
 		}
 		return &http.Response{StatusCode: 200, Status: "200 OK", Header: http.Header{"Content-Type": []string{"text/plain"}},
-			Body: io.NopCloser(strings.NewReader(expoPayload(scraped, total))), Request: req}, nil
+			Body: io.NopCloser(strings.NewReader(expoPayload(scraped, total, job))), Request: req}, nil
 	}
 	rec := httptest.NewRecorder()
 	url := fmt.Sprintf("http://10.1.0.%d:80/metrics?_jobName=job%d&_hash=%d&_scheme=http", h, job, h)
